@@ -22,6 +22,7 @@ ASSUMPTIONS = ['under-11 outcomes (U11, and U9 with the underage option) follow 
                'by age on 31 August (TF) / on the day (XC, ROAD)',
                'Rule 207/507 "aged 11 on the day or 12 on the preceding 31 August" is read as: at least 11 on the day and at most 12 on '
                'the preceding 31 August']
+RULE = RULE + '; options also left out (documented defaults), birth date also as a midnight datetime and options as keywords'
 
 LABELS = ['U9', 'U11', 'U13', 'U15', 'U17', 'U20', 'SEN'] + ['V%02d' % b for b in range(35, 130, 5)]
 RANK = {l: i for i, l in enumerate(LABELS)}
